@@ -211,7 +211,7 @@ impl Property for C17 {
         .boxed()
     }
     fn cases(tier: Tier) -> u32 {
-        tier.pick(2_500, 30_000)
+        tier.pick(8_000, 40_000)
     }
     fn exhaustive(_tier: Tier, sink: &mut dyn FnMut(Scenario)) -> Vec<String> {
         sink(Scenario::Statics);
